@@ -169,6 +169,15 @@ def gen_cases(tier, seed):
                           'size': rng.choice([0, 1, 5000, 200000]),
                           'chunk': rng.choice(CHUNKS),
                           'cseed': rng.randrange(1 << 30)})
+            # a redirection installed late, with unread data already queued
+            # (more than a receive window was sent meanwhile)
+            if len(cases) % 3 == 0:
+                c = dict(cases[-1])
+                c['target'] = ['late_client', 'late_server'][
+                    (len(cases) // 3) % 2]
+                c['window'] = [4096, 65536, 1000][(len(cases) // 6) % 3]
+                c['size'] = [200000, 5000, 70000, 1][(len(cases) // 9) % 4]
+                cases.append(c)
         elif r < 0.94:
             window = rng.choice([1, 100, 4096])
             high = rng.choice([64, 1024, 65536]) if window > 1 else 64
@@ -648,18 +657,90 @@ def _run_redirect(case, mon, viol):
         process.stderr.write(b'ERR' + data[:5])
         process.exit(0)
 
+    late_path = os.path.join(tmp, 'late')
+    late = {}
+
+    async def late_sink(process):
+        # the application takes its time before it says where stdin goes
+        await asyncio.sleep(0.5)
+        f = open(late_path, 'wb')
+        await process.redirect_stdin(f)
+        for _ in range(400):
+            if f.closed:
+                break
+            await asyncio.sleep(0.05)
+        late['closed'] = f.closed
+        if not f.closed:
+            f.flush()
+        process.exit(0 if f.closed else 3)
+
     async def main(loop):
         handler = echo if target in ('stdin_bytes', 'stdin_file',
                                      'process') else source
+        sopts = {}
+        if target == 'late_server':
+            handler = late_sink
+            sopts['window'] = case['window']
         async with scen.Env(loop, server_factory=lambda: apps.RecServer(
                 apps.EventLog()), chunking=case['chunk'], seed=case['cseed'],
                 server_opts={'process_factory': handler,
-                             'encoding': None}) as env:
+                             'encoding': None, **sopts}) as env:
             conn = await env.connect()
             got = None
             mon['redirect_checked'] += 1
 
-            if target == 'path':
+            if target == 'late_client':
+                mon['late_redirects'] = mon.get('late_redirects', 0) + 1
+                proc = await conn.create_process('x', encoding=None,
+                                                 window=case['window'])
+                h = min(10, len(data))
+                head = await proc.stdout.readexactly(h)
+                await env.settle()      # the rest piles up, unread
+                p = os.path.join(tmp, 'out')
+                f = open(p, 'wb')
+                await proc.redirect_stdout(f)
+                t = asyncio.ensure_future(proc.wait_closed())
+                env.san.harness_tasks.add(t)
+                await env.settle()
+                if not t.done():
+                    viol.append({
+                        'mechanism': 'late_redirect_stalls',
+                        'detail': f'late_client: wait_closed() pending at '
+                                  f'quiescence; target file holds '
+                                  f'{os.path.getsize(p)} of '
+                                  f'{len(data) - h} bytes; window='
+                                  f'{case["window"]}'})
+                    t.cancel()
+                await asyncio.gather(t, return_exceptions=True)
+                if not f.closed:
+                    f.close()
+                with open(p, 'rb') as f2:
+                    got = head + f2.read()
+            elif target == 'late_server':
+                mon['late_redirects'] = mon.get('late_redirects', 0) + 1
+                t = asyncio.ensure_future(conn.run('x', input=data,
+                                                   encoding=None))
+                env.san.harness_tasks.add(t)
+                for _ in range(40):
+                    await env.settle()
+                    if t.done():
+                        break
+                if not t.done():
+                    t.cancel()
+                r_ = (await asyncio.gather(t, return_exceptions=True))[0]
+                st = getattr(r_, 'exit_status', None)
+                with open(late_path, 'rb') as f2:
+                    got = f2.read()
+                if st != 0:
+                    viol.append({
+                        'mechanism': 'late_redirect_stalls',
+                        'detail': f'late_server: target never saw EOF '
+                                  f'(result {r_!r:.80}); it holds '
+                                  f'{len(got)} of {len(data)} bytes; '
+                                  f'window={case["window"]}'})
+                    got = data
+
+            elif target == 'path':
                 p = os.path.join(tmp, 'out')
                 res = await conn.run('x', stdout=p, encoding=None)
                 with open(p, 'rb') as f:
